@@ -437,3 +437,405 @@ Proof.
     rewrite H1, H2. reflexivity.
   - destruct (wlookup v 0 p) as [t s e|ct pos| |]; try reflexivity; [rewrite HS; reflexivity|contradiction].
 Qed.
+
+(* ================= deleteChild ================= *)
+Ltac norm_app := repeat (progress (rewrite <- ?app_assoc; cbn [app])).
+
+Definition dc_elems (bs : list Z) (s : pstep) : dcres :=
+  match s with
+  | PIndex i =>
+    match bs with
+    | et :: r =>
+      match skip_count r with
+      | None => DcErr None
+      | Some (sz, r2) =>
+        if i <? 0 then DcErr None else if i >=? sz then DcNotFound else
+        let patch := Some (1, sz - 1) in
+        let d := fixed_size et in
+        if d >? 0 then DcFound patch (5 + d * i) (5 + d * i + d)
+        else match search_nth (Z.to_nat i) et r2 5 with
+             | SFound _ o rest =>
+               match skip_go et rest with
+               | Some r3 => DcFound patch o (o + (zlen rest - zlen r3))
+               | None => DcErr patch
+               end
+             | _ => DcErr patch
+             end
+      end
+    | [] => DcErr None
+    end
+  | _ => DcErr None
+  end.
+Lemma dc_list bs s : delete_child T_LIST bs s = dc_elems bs s. Proof. reflexivity. Qed.
+Lemma dc_set bs s : delete_child T_SET bs s = dc_elems bs s. Proof. reflexivity. Qed.
+
+(* count patch (n -> n - 1) and removal of one element [el] of a container with header H *)
+Lemma remove_span A B H n mid el post pos s0 e0 :
+  pos = zlen A + zlen H -> s0 = zlen A + zlen H + 4 + zlen mid -> e0 = s0 + zlen el ->
+  replace (write_i32 (A ++ (H ++ enc_int 4 n ++ mid ++ el ++ post) ++ B) pos (n - 1)) s0 e0 []
+  = A ++ (H ++ enc_int 4 (n - 1) ++ mid ++ post) ++ B.
+Proof.
+  intros -> -> ->.
+  replace (A ++ (H ++ enc_int 4 n ++ mid ++ el ++ post) ++ B) with ((A ++ H) ++ enc_int 4 n ++ (mid ++ el ++ post ++ B))
+    by (rewrite <- !app_assoc; reflexivity).
+  rewrite write_i32_mid; [|apply zlen_enc_int|rewrite zlen_app; reflexivity].
+  replace ((A ++ H) ++ enc_int 4 (n - 1) ++ mid ++ el ++ post ++ B) with (((A ++ H) ++ enc_int 4 (n - 1) ++ mid) ++ el ++ (post ++ B))
+    by (rewrite <- !app_assoc; reflexivity).
+  rewrite replace_mid; [|rewrite !zlen_app, zlen_enc_int; lia|rewrite !zlen_app, zlen_enc_int; lia].
+  cbn [app]. rewrite <- !app_assoc. reflexivity.
+Qed.
+
+Lemma Forall_mid {A} (P : A -> Prop) pre a post : Forall P (pre ++ a :: post) -> Forall P pre /\ P a /\ Forall P post.
+Proof. intros H. apply Forall_app in H. destruct H as [H1 H2]. inversion H2; subst. auto. Qed.
+
+(* the element loop of deleteChild on a list / set body *)
+Lemma dc_elems_found et pre c0 post i :
+  zlen (pre ++ c0 :: post) < 2 ^ 31 -> Forall (fun e => type_of e = et /\ good e) (pre ++ c0 :: post) ->
+  0 <= i -> length pre = Z.to_nat i ->
+  exists s0 e0, dc_elems (et :: enc_int 4 (zlen (pre ++ c0 :: post)) ++ flat_map encode (pre ++ c0 :: post)) (PIndex i)
+                = DcFound (Some (1, zlen (pre ++ c0 :: post) - 1)) s0 e0 /\
+                s0 = 5 + zlen (flat_map encode pre) /\ e0 = s0 + zlen (encode c0).
+Proof.
+  intros Hlen HF Hi L.
+  destruct (Forall_mid _ _ _ _ HF) as [HFpre [[Tc Gc] HFpost]].
+  assert (Hzi : zlen pre = i) by (unfold zlen; lia).
+  unfold dc_elems. rewrite skip_count_ok by (apply zlen_bound; exact Hlen).
+  destruct (Z.ltb_spec i 0); [lia|].
+  assert (Hlt : i < zlen (pre ++ c0 :: post)) by (rewrite zlen_app, zlen_cons; pose proof (zlen_nonneg post); lia).
+  destruct (Z.geb_spec i (zlen (pre ++ c0 :: post))); [lia|]. cbv zeta.
+  destruct (fixed_size et >? 0) eqn:Ef.
+  - eexists; eexists; split; [reflexivity|].
+    assert (Hpre : zlen (flat_map encode pre) = zlen pre * fixed_size et).
+    { apply flat_map_fixed_len; [exact Ef|]. eapply Forall_impl; [|exact HFpre]. intros a [Ha _]. exact Ha. }
+    assert (Hc : zlen (encode c0) = fixed_size et) by (rewrite <- Tc; apply fixed_encode_len; rewrite Tc; exact Ef).
+    rewrite Hpre, Hc, Hzi. split; lia.
+  - pose proof (search_nth_refines et (pre ++ c0 :: post) (Z.to_nat i) [] 5 HF) as HS.
+    rewrite app_nil_r in HS. rewrite <- L in HS. rewrite find_index_mid in HS.
+    specialize (HS ltac:(rewrite app_length; cbn [length]; lia)). cbn [sres_matches] in HS. destruct HS as [r' HS].
+    rewrite <- L. rewrite HS.
+    replace (skip_go et (encode c0 ++ r')) with (skip_go (type_of c0) (encode c0 ++ r')) by (rewrite Tc; reflexivity).
+    rewrite skip_go_encode by exact Gc.
+    eexists; eexists; split; [reflexivity|]. split; [reflexivity|]. rewrite zlen_app. lia.
+Qed.
+
+Lemma dc_elems_absent et es i : zlen es < 2 ^ 31 -> 0 <= i -> zlen es <= i ->
+  dc_elems (et :: enc_int 4 (zlen es) ++ flat_map encode es) (PIndex i) = DcNotFound.
+Proof.
+  intros Hlen Hi Hge. unfold dc_elems. rewrite skip_count_ok by (apply zlen_bound; exact Hlen).
+  destruct (Z.ltb_spec i 0); [lia|]. destruct (Z.geb_spec i (zlen es)); [reflexivity|lia].
+Qed.
+
+Lemma dc_elems_neg et es i : zlen es < 2 ^ 31 -> i < 0 ->
+  dc_elems (et :: enc_int 4 (zlen es) ++ flat_map encode es) (PIndex i) = DcErr None.
+Proof.
+  intros Hlen Hi. unfold dc_elems. rewrite skip_count_ok by (apply zlen_bound; exact Hlen).
+  destruct (Z.ltb_spec i 0); [reflexivity|lia].
+Qed.
+
+Lemma del_nth_absent (es : list tval) n : (length es <= n)%nat -> del_nth n es = None.
+Proof.
+  revert n. induction es as [|x es IH]; intros n H; [destruct n; reflexivity|].
+  destruct n as [|n]; [cbn in H; lia|]. cbn [del_nth]. rewrite IH; [reflexivity|cbn in H; lia].
+Qed.
+
+Lemma del_nth_present (es : list tval) n : (n < length es)%nat ->
+  exists pre c0 post, es = pre ++ c0 :: post /\ length pre = n /\ del_nth n es = Some (pre ++ post).
+Proof.
+  intros H. pose proof (del_nth_spec es n) as HS. destruct (del_nth n es) as [es'|].
+  - destruct HS as [pre [c0 [post [E [L E']]]]]. exists pre, c0, post. subst. auto.
+  - apply nth_error_None in HS. lia.
+Qed.
+
+(* list / set: the whole deleteChild + replace against del_nth *)
+Lemma dc_elems_spec et es i (mk : list tval -> tval) :
+  (forall l, encode (mk l) = et :: enc_int 4 (zlen l) ++ flat_map encode l) ->
+  zlen es < 2 ^ 31 -> Forall (fun e => type_of e = et /\ good e) es ->
+  if i <? 0 then dc_elems (encode (mk es)) (PIndex i) = DcErr None else
+  match del_nth (Z.to_nat i) es with
+  | Some es' => exists patch s0 e0, dc_elems (encode (mk es)) (PIndex i) = DcFound patch s0 e0 /\
+      forall A B, replace (apply_patch (A ++ encode (mk es) ++ B) (zlen A) patch) (zlen A + s0) (zlen A + e0) [] = A ++ encode (mk es') ++ B
+  | None => dc_elems (encode (mk es)) (PIndex i) = DcNotFound
+  end.
+Proof.
+  intros Hmk Hlen HF. rewrite Hmk. destruct (Z.ltb_spec i 0) as [Hi|Hi]; [apply dc_elems_neg; assumption|].
+  destruct (Nat.lt_ge_cases (Z.to_nat i) (length es)) as [Hlt|Hge].
+  - destruct (del_nth_present es _ Hlt) as [pre [c0 [post [E [L D]]]]]. rewrite D. subst es.
+    destruct (dc_elems_found et pre c0 post i Hlen HF Hi L) as [s0 [e0 [Hdc [Hs0 He0]]]].
+    eexists; eexists; eexists; split; [exact Hdc|]. intros A B. rewrite !Hmk. cbn [apply_patch].
+    rewrite flat_map_app. cbn [flat_map].
+    pose proof (remove_span A B [et] (zlen (pre ++ c0 :: post)) (flat_map encode pre) (encode c0) (flat_map encode post)
+                  (zlen A + 1) (zlen A + s0) (zlen A + e0)) as HR.
+    rewrite zlen_cons, zlen_nil in HR. cbn [app] in HR. cbn [app].
+    rewrite HR by lia. rewrite flat_map_app, zlen_remove.
+    replace (zlen (pre ++ post) + 1 - 1) with (zlen (pre ++ post)) by lia. reflexivity.
+  - rewrite del_nth_absent by exact Hge. apply dc_elems_absent; [exact Hlen|exact Hi|unfold zlen; lia].
+Qed.
+
+(* struct: field loop *)
+Lemma dc_struct_unfold bs id : delete_child T_STRUCT bs (PField id) =
+  match search_field (S (length bs)) id bs 0 with
+  | SFound ft o rest => match skip_go ft rest with Some r => DcFound None (o - 3) (o + (zlen rest - zlen r)) | None => DcErr None end
+  | SNotFound => DcNotFound
+  | SErr => DcErr None
+  end.
+Proof. reflexivity. Qed.
+
+Lemma gsplit_in {K} (pr : K -> bool) l pre e post : gsplit pr l pre e post -> In e l.
+Proof. intros [E _]. subst l. apply in_or_app. right. left. reflexivity. Qed.
+
+Lemma dc_struct_spec fs id : good (VStruct fs) ->
+  match gdel (fun i => i =? id) fs with
+  | Some fs' => exists s0 e0, delete_child T_STRUCT (encode (VStruct fs)) (PField id) = DcFound None s0 e0 /\
+      forall A B, replace (A ++ encode (VStruct fs) ++ B) (zlen A + s0) (zlen A + e0) [] = A ++ encode (VStruct fs') ++ B
+  | None => delete_child T_STRUCT (encode (VStruct fs)) (PField id) = DcNotFound
+  end.
+Proof.
+  intros Hg. pose proof (gdel_spec (fun i => i =? id) fs) as HS.
+  pose proof (search1_refines (VStruct fs) (PField id) [] Hg) as H1. rewrite app_nil_r in H1.
+  change (search1 (type_of (VStruct fs)) (PField id) (encode (VStruct fs)))
+    with (search_field (S (length (encode (VStruct fs)))) id (encode (VStruct fs)) 0) in H1.
+  cbn [lookup1] in H1. rewrite dc_struct_unfold.
+  destruct (gdel (fun i => i =? id) fs) as [fs'|].
+  - destruct HS as [pre [e [post [Hs E']]]]. rewrite (find_field_gsplit _ _ _ _ _ Hs) in H1.
+    cbn [sres_matches] in H1. destruct H1 as [r' H1]. rewrite H1.
+    assert (Ge : good (snd e)).
+    { pose proof (good_struct_inv _ Hg) as HF. rewrite Forall_forall in HF. apply (HF e). eapply gsplit_in; exact Hs. }
+    rewrite skip_go_encode by exact Ge.
+    eexists; eexists; split; [reflexivity|]. intros A B. destruct Hs as [E _]. subst fs fs'. cbn [encode].
+    rewrite !flat_map_app. cbn [flat_map].
+    replace (A ++ ((encF pre ++ (type_of (snd e) :: enc_int 2 (fst e) ++ encode (snd e)) ++ encF post) ++ [0]) ++ B)
+      with ((A ++ encF pre) ++ (type_of (snd e) :: enc_int 2 (fst e) ++ encode (snd e)) ++ (encF post ++ [0] ++ B))
+      by (norm_app; reflexivity).
+    rewrite replace_mid.
+    + norm_app. reflexivity.
+    + rewrite zlen_app. lia.
+    + rewrite !zlen_app, zlen_cons, !zlen_app, zlen_enc_int. lia.
+  - rewrite (find_field_none _ _ HS) in H1. cbn [sres_matches] in H1. rewrite H1. reflexivity.
+Qed.
+
+(* map: raw key loop *)
+Lemma dc_map_unfold kt vt r s : delete_child T_MAP (kt :: vt :: r) s =
+  match skip_count r with
+  | None => DcErr None
+  | Some (sz, _) =>
+    match to_raw s kt with
+    | None => DcErr None
+    | Some raw =>
+      match search_map (PBinKey raw) (kt :: vt :: r) with
+      | SFound _ o rest =>
+        match skip_go vt rest with
+        | Some r3 => DcFound (Some (2, sz - 1)) (o - zlen raw) (o + (zlen rest - zlen r3))
+        | None => DcErr None
+        end
+      | SNotFound => DcNotFound
+      | SErr => DcErr None
+      end
+    end
+  end.
+Proof. reflexivity. Qed.
+
+Lemma dc_map_spec kt vt es s kv : good (VMap kt vt es) -> to_raw s kt = Some (encode kv) ->
+  match gdel (bin_key_is (encode kv)) es with
+  | Some es' => exists patch s0 e0, delete_child T_MAP (encode (VMap kt vt es)) s = DcFound patch s0 e0 /\
+      forall A B, replace (apply_patch (A ++ encode (VMap kt vt es) ++ B) (zlen A) patch) (zlen A + s0) (zlen A + e0) [] = A ++ encode (VMap kt vt es') ++ B
+  | None => delete_child T_MAP (encode (VMap kt vt es)) s = DcNotFound
+  end.
+Proof.
+  intros Hg Hraw. pose proof (gdel_spec (bin_key_is (encode kv)) es) as HS.
+  pose proof (search_map_refines (PBinKey (encode kv)) kt vt es [] Hg) as H1. rewrite app_nil_r in H1. cbn [lookup1] in H1.
+  destruct (good_map_inv _ _ _ Hg) as [Hlen HF].
+  cbn [encode] in *. rewrite dc_map_unfold. rewrite skip_count_ok by (apply zlen_bound; exact Hlen). rewrite Hraw.
+  destruct (gdel (bin_key_is (encode kv)) es) as [es'|].
+  - destruct HS as [pre [e [post [Hs E']]]]. rewrite (find_key_gsplit _ _ _ _ _ Hs) in H1.
+    cbn [sres_matches] in H1. destruct H1 as [r' H1]. rewrite H1.
+    rewrite Forall_forall in HF. destruct (HF e (gsplit_in _ _ _ _ _ Hs)) as [_ [Tv [_ Gv]]].
+    replace (skip_go vt (encode (snd e) ++ r')) with (Some r') by (rewrite <- Tv; symmetry; apply skip_go_encode; exact Gv).
+    eexists; eexists; eexists; split; [reflexivity|]. intros A B. cbn [apply_patch].
+    destruct Hs as [E [He _]]. subst es es'. unfold bin_key_is in He. apply bytes_eqb_eq in He.
+    rewrite !flat_map_app. cbn [flat_map].
+    pose proof (remove_span A B [kt; vt] (zlen (pre ++ e :: post)) (encP pre) (encode (fst e) ++ encode (snd e)) (encP post)
+                  (zlen A + 2)
+                  (zlen A + (6 + zlen (encP pre) + zlen (encode (fst e)) - zlen (encode kv)))
+                  (zlen A + (6 + zlen (encP pre) + zlen (encode (fst e)) + (zlen (encode (snd e) ++ r') - zlen r')))) as HR.
+    rewrite !zlen_cons, zlen_nil in HR. cbn [app] in HR. rewrite <- ?app_assoc in HR. cbn [app]. rewrite <- ?app_assoc.
+    rewrite HR; [| lia | rewrite He; lia | rewrite !zlen_app, He; lia].
+    rewrite zlen_remove. replace (zlen (pre ++ post) + 1 - 1) with (zlen (pre ++ post)) by lia. reflexivity.
+  - rewrite (find_key_none _ _ HS) in H1. cbn [sres_matches] in H1. rewrite H1. reflexivity.
+Qed.
+
+Lemma to_raw_none kt vt es s : key_of_step kt s = None -> unset_last_ok s (VMap kt vt es) = true -> to_raw s kt = None.
+Proof.
+  destruct s as [id|i|ks|n|b]; cbn [unset_last_ok key_of_step to_raw raw_key_ok]; intros Hk Hu; try discriminate Hu; try reflexivity.
+  - rewrite Hu in Hk. discriminate Hk.
+  - destruct (kt =? T_BYTE); [discriminate Hk|]. destruct (kt =? T_I16); [discriminate Hk|].
+    destruct (kt =? T_I32); [discriminate Hk|]. destruct (kt =? T_I64); [discriminate Hk|]. reflexivity.
+  - rewrite Hk in Hu. discriminate Hu.
+Qed.
+
+Lemma unset_raw_key kt vt es s kv : unset_last_ok s (VMap kt vt es) = true -> key_of_step kt s = Some kv ->
+  to_raw s kt = Some (encode kv).
+Proof.
+  intros Hu Hk. apply to_raw_key; [exact Hk|]. intros b ->. cbn [unset_last_ok] in Hu.
+  eapply raw_key_ok_map; [exact Hu|exact Hk|reflexivity].
+Qed.
+
+(* deleteChild on the encoding of the parent against the last step of ast_unset *)
+Lemma delete_child_spec s c : good c -> unset_last_ok s c = true ->
+  match remove_at s c with
+  | DOk c' true => exists patch s0 e0, delete_child (type_of c) (encode c) s = DcFound patch s0 e0 /\
+        forall A B, replace (apply_patch (A ++ encode c ++ B) (zlen A) patch) (zlen A + s0) (zlen A + e0) [] = A ++ encode c' ++ B
+  | DOk _ false => delete_child (type_of c) (encode c) s = DcNotFound
+  | DErr => delete_child (type_of c) (encode c) s = DcErr None \/ delete_child (type_of c) (encode c) s = DcNone
+  end.
+Proof.
+  intros Hg Hu.
+  destruct c as [?|?|?|?|?|?|?|fs|kt vt es|et es|et es]; destruct s as [id|i|ks|n|b]; cbn [remove_at];
+    try (right; reflexivity); try (left; reflexivity); try discriminate Hu.
+  - (* struct, field *)
+    rewrite del_field_gdel. pose proof (dc_struct_spec fs id Hg) as H. cbn [type_of].
+    destruct (gdel (fun i => i =? id) fs) as [fs'|]; [|exact H].
+    destruct H as [s0 [e0 [H1 H2]]]. exists None, s0, e0. split; [exact H1|]. intros A B. cbn [apply_patch]. apply H2.
+  - (* map, index: ToRaw gives nil *)
+    left. cbn [type_of encode]. destruct (good_map_inv _ _ _ Hg) as [Hlen _].
+    rewrite dc_map_unfold, skip_count_ok by (apply zlen_bound; exact Hlen). reflexivity.
+  - (* map, string key *)
+    destruct (key_of_step kt (PStrKey ks)) as [kv|] eqn:Ek.
+    + rewrite del_key_gdel. pose proof (dc_map_spec kt vt es _ kv Hg (unset_raw_key _ _ _ _ _ Hu Ek)) as H. cbn [type_of].
+      destruct (gdel (bin_key_is (encode kv)) es) as [es'|]; exact H.
+    + left. cbn [type_of encode]. destruct (good_map_inv _ _ _ Hg) as [Hlen _].
+      rewrite dc_map_unfold, skip_count_ok by (apply zlen_bound; exact Hlen). rewrite (to_raw_none _ _ _ _ Ek Hu). reflexivity.
+  - (* map, integer key *)
+    destruct (key_of_step kt (PIntKey n)) as [kv|] eqn:Ek.
+    + rewrite del_key_gdel. pose proof (dc_map_spec kt vt es _ kv Hg (unset_raw_key _ _ _ _ _ Hu Ek)) as H. cbn [type_of].
+      destruct (gdel (bin_key_is (encode kv)) es) as [es'|]; exact H.
+    + left. cbn [type_of encode]. destruct (good_map_inv _ _ _ Hg) as [Hlen _].
+      rewrite dc_map_unfold, skip_count_ok by (apply zlen_bound; exact Hlen). rewrite (to_raw_none _ _ _ _ Ek Hu). reflexivity.
+  - (* map, raw key *)
+    destruct (key_of_step kt (PBinKey b)) as [kv|] eqn:Ek.
+    + rewrite del_key_gdel. pose proof (dc_map_spec kt vt es _ kv Hg (unset_raw_key _ _ _ _ _ Hu Ek)) as H. cbn [type_of].
+      destruct (gdel (bin_key_is (encode kv)) es) as [es'|]; exact H.
+    + left. cbn [type_of encode]. destruct (good_map_inv _ _ _ Hg) as [Hlen _].
+      rewrite dc_map_unfold, skip_count_ok by (apply zlen_bound; exact Hlen). rewrite (to_raw_none _ _ _ _ Ek Hu). reflexivity.
+  - (* set, index *)
+    destruct (good_set_inv _ _ Hg) as [Hlen HF]. cbn [type_of]. rewrite dc_set.
+    pose proof (dc_elems_spec et es i (VSet et) ltac:(reflexivity) Hlen HF) as H.
+    destruct (i <? 0); [left; exact H|]. destruct (del_nth (Z.to_nat i) es) as [es'|]; exact H.
+  - (* list, index *)
+    destruct (good_list_inv _ _ Hg) as [Hlen HF]. cbn [type_of]. rewrite dc_list.
+    pose proof (dc_elems_spec et es i (VList et) ltac:(reflexivity) Hlen HF) as H.
+    destruct (i <? 0); [left; exact H|]. destruct (del_nth (Z.to_nat i) es) as [es'|]; exact H.
+Qed.
+
+(* ================= UNSET: ast_unset seen from the parent of the addressed element ================= *)
+(* the spec walks to the parent (all steps but the last) and removes the child there; everything around the parent's
+   encoding stays as it is *)
+Lemma unset_spec : forall p v off, good v -> unset_dom p v = true ->
+  exists pre ls, split_last p = Some (pre, ls) /\
+  match lookup v off pre with
+  | LFound c o => unset_last_ok ls c = true /\ good c /\ exists A B, o = off + zlen A /\ encode v = A ++ encode c ++ B /\
+      match remove_at ls c with
+      | DOk c' r => exists v', ast_unset p v = DOk v' r /\ encode v' = A ++ encode c' ++ B
+      | DErr => ast_unset p v = DErr
+      end
+  | LNotFound => ast_unset p v = DOk v false
+  | LErr => ast_unset p v = DErr
+  end.
+Proof.
+  induction p as [|s p IH]; intros v off Hg Hd; [discriminate Hd|].
+  destruct p as [|t p].
+  - (* last step *)
+    exists [], s. split; [reflexivity|]. cbn [lookup]. cbn [unset_dom] in Hd.
+    split; [exact Hd|]. split; [exact Hg|]. exists [], []. rewrite zlen_nil. cbn [app]. rewrite app_nil_r.
+    split; [lia|]. split; [reflexivity|]. rewrite ast_unset_single.
+    destruct (remove_at s v) as [c' r|]; [|reflexivity]. exists c'. rewrite app_nil_r. split; reflexivity.
+  - (* inner step *)
+    change (unset_dom (s :: t :: p) v) with (match lookup1 v s with LFound c _ => unset_dom (t :: p) c | _ => true end) in Hd.
+    pose proof (ast_unset_cons2 s t p v) as HU. pose proof (descend_spec (unset_k (t :: p)) s v) as HD.
+    destruct (descend (unset_k (t :: p)) s v) as [| |v1 r1].
+    + (* absent *)
+      apply vlookup1_notfound in HD.
+      destruct (split_last_some (t :: p) ltac:(discriminate)) as [pre2 [ls E2]].
+      exists (s :: pre2), ls. split; [cbn [split_last] in *; rewrite E2; reflexivity|].
+      cbn [lookup]. rewrite HD. exact HU.
+    + destruct HD as [HE|[c0 [L Hk]]].
+      * apply vlookup1_err in HE.
+        destruct (split_last_some (t :: p) ltac:(discriminate)) as [pre2 [ls E2]].
+        exists (s :: pre2), ls. split; [cbn [split_last] in *; rewrite E2; reflexivity|].
+        cbn [lookup]. rewrite HE. exact HU.
+      * destruct (vlookup1_found _ _ _ _ L) as [o' L']. rewrite L' in Hd.
+        destruct (lookup1_split _ _ _ _ L') as [pre1 [post1 [E1 O1]]].
+        destruct (IH c0 (off + o') (lookup1_good _ _ _ _ Hg L') Hd) as [pre2 [ls [E2 IHc]]].
+        exists (s :: pre2), ls. split; [cbn [split_last] in *; rewrite E2; reflexivity|].
+        cbn [lookup]. rewrite L'.
+        unfold unset_k in Hk. destruct (ast_unset (t :: p) c0) as [c1 r1|] eqn:Eu; [discriminate Hk|].
+        destruct (lookup c0 (off + o') pre2) as [c o| |]; [|discriminate IHc|exact HU].
+        destruct IHc as [Hlu [Hgc [A2 [B2 [Ho [Ec Hr]]]]]]. split; [exact Hlu|]. split; [exact Hgc|].
+        exists (pre1 ++ A2), (B2 ++ post1). rewrite zlen_app. split; [lia|].
+        split; [rewrite E1, Ec; rewrite <- !app_assoc; reflexivity|].
+        destruct (remove_at ls c) as [c' r|]; [|exact HU]. destruct Hr as [v' [Hv' _]]. discriminate Hv'.
+    + (* the step addresses a child c0, edited into c0' *)
+      destruct HD as [c0 [c0' [L [Hk R]]]]. destruct (vlookup1_found _ _ _ _ L) as [o' L']. rewrite L' in Hd.
+      destruct (IH c0 (off + o') (lookup1_good _ _ _ _ Hg L') Hd) as [pre2 [ls [E2 IHc]]].
+      unfold unset_k in Hk. destruct (ast_unset (t :: p) c0) as [c1 r|] eqn:Eu; [|discriminate Hk]. inversion Hk; subst c1 r1. clear Hk.
+      destruct (child_replaced_encode _ _ _ _ _ R (ast_unset_type _ _ _ _ Eu)) as [pre1 [post1 [L1 [E1 E1']]]].
+      rewrite L1 in L'. inversion L'; subst o'. clear L'.
+      exists (s :: pre2), ls. split; [cbn [split_last] in *; rewrite E2; reflexivity|].
+      cbn [lookup]. rewrite L1.
+      destruct (lookup c0 (off + zlen pre1) pre2) as [c o| |].
+      * destruct IHc as [Hlu [Hgc [A2 [B2 [Ho [Ec Hr]]]]]]. split; [exact Hlu|]. split; [exact Hgc|].
+        exists (pre1 ++ A2), (B2 ++ post1). rewrite zlen_app. split; [lia|].
+        split; [rewrite E1, Ec; rewrite <- !app_assoc; reflexivity|].
+        destruct (remove_at ls c) as [c' r'|]; [|discriminate Hr].
+        destruct Hr as [v' [Hv' Ev']]. inversion Hv'; subst v' r'. exists v1. split; [exact HU|].
+        rewrite E1', Ev'. rewrite <- !app_assoc. reflexivity.
+      * inversion IHc; subst c0' r. rewrite HU. f_equal. eapply ast_unset_absent_id. exact HU.
+      * discriminate IHc.
+Qed.
+
+Lemma parent_refines pre v : wf v = true -> (depth v <= max_skip_depth)%nat ->
+  match pre with [] => GFound (type_of v) 0 (zlen (encode v)) | _ => get_by_path (type_of v) (encode v) 0 pre end
+  = gres_of_lres (lookup v 0 pre).
+Proof.
+  intros Hw Hd. destruct pre as [|s pre].
+  - cbn [lookup gres_of_lres]. f_equal.
+  - pose proof (get_by_path_refines_lookup (s :: pre) v [] 0 Hw Hd) as H. rewrite app_nil_r in H. exact H.
+Qed.
+
+(* ================= unset_refines ================= *)
+Theorem unset_refines : forall p v,
+  wf v = true -> (depth v <= max_skip_depth)%nat -> unset_dom p v = true ->
+  match ast_unset p v with
+  | DOk v' true => unset_by_path (type_of v) (encode v) p = UbOk (encode v')
+  | DOk v' false => unset_by_path (type_of v) (encode v) p = UbOk (encode v) \/ unset_by_path (type_of v) (encode v) p = UbNotFound
+  | DErr => unset_by_path (type_of v) (encode v) p = UbErr (encode v) \/ unset_by_path (type_of v) (encode v) p = UbOk (encode v)
+  end.
+Proof.
+  intros p v Hw Hdp Hd. assert (Hg : good v) by (split; assumption).
+  destruct (unset_spec p v 0 Hg Hd) as [pre [ls [Esl H]]].
+  unfold unset_by_path. rewrite Esl. rewrite (parent_refines pre v Hw Hdp).
+  destruct (lookup v 0 pre) as [c o| |]; cbn [gres_of_lres].
+  - destruct H as [Hlu [Hgc [A [B [Ho [E Hr]]]]]].
+    assert (Hs : bfirstn (o + zlen (encode c) - o) (bskipn o (encode v)) = encode c) by (rewrite E; apply slice_mid; lia).
+    rewrite Hs. pose proof (delete_child_spec ls c Hgc Hlu) as HD.
+    assert (Hoz : o = zlen A) by lia. clear Ho. subst o.
+    destruct (remove_at ls c) as [c' [|]|].
+    + destruct HD as [patch [s0 [e0 [Hdc Hrep]]]]. rewrite Hdc. destruct Hr as [v' [Hv' Ev']]. rewrite Hv'.
+      rewrite Ev', E. f_equal. apply Hrep.
+    + rewrite HD. destruct Hr as [v' [Hv' Ev']]. rewrite Hv'. right. reflexivity.
+    + rewrite Hr. destruct HD as [HD|HD]; rewrite HD.
+      * left. reflexivity.
+      * right. f_equal. rewrite E at 1. rewrite replace_ins by reflexivity. rewrite E. reflexivity.
+  - rewrite H. left. reflexivity.
+  - rewrite H. left. reflexivity.
+Qed.
+
+(* whatever the outcome, the buffer afterwards is the encoding of the spec's next state *)
+Corollary unset_refines_bytes p v : wf v = true -> (depth v <= max_skip_depth)%nat -> unset_dom p v = true ->
+  ub_bytes (encode v) (unset_by_path (type_of v) (encode v) p) = encode (ast_step true v (OUnset p)).
+Proof.
+  intros Hw Hdp Hd. pose proof (unset_refines p v Hw Hdp Hd) as H. cbn [ast_step].
+  destruct (ast_unset p v) as [v' [|]|] eqn:Eu.
+  - rewrite H. reflexivity.
+  - rewrite (ast_unset_absent_id _ _ _ Eu). destruct H as [H|H]; rewrite H; reflexivity.
+  - destruct H as [H|H]; rewrite H; reflexivity.
+Qed.
